@@ -93,9 +93,12 @@ func init() {
 		return args, func() (interface{}, string) {
 			pathDiskSeq++
 			wd, _ := os.Getwd()
-			base := filepath.Join(wd, "work", "pathdisk", fmt.Sprintf("c%d-%d", os.Getpid(), pathDiskSeq))
+			// a SMALL pool of directory names, reused by later cases with other trees: a path that was a plain file or directory in
+			// one case is a link in another — nothing about how a path resolved earlier in the process may be remembered
+			slot := pathDiskSeq % 3
+			base := filepath.Join(wd, "work", "pathdisk", fmt.Sprintf("c%d-%d", os.Getpid(), slot))
 			if rb, err := filepath.EvalSymlinks(wd); err == nil {
-				base = filepath.Join(rb, "work", "pathdisk", fmt.Sprintf("c%d-%d", os.Getpid(), pathDiskSeq))
+				base = filepath.Join(rb, "work", "pathdisk", fmt.Sprintf("c%d-%d", os.Getpid(), slot))
 			}
 			os.RemoveAll(base)
 			defer os.RemoveAll(base)
